@@ -274,6 +274,109 @@ pub fn t3(cfg: T3Cfg) -> Corpus {
     Corpus::new("T3", g, B, cfg.max)
 }
 
+/// T4: reapply loops in every guarded position. A loop body T is built from guards over the counter `$`,
+/// value expressions, and the reapply forms `^~ $ + 1`, `^~ $ + 2`, which may sit in a conditional arm (then / else /
+/// chained), as the right operand of `&&` / `||`, inside a group and after a sequencing operator. The body is the
+/// nested expression of `{ T } <~ 0` (or `0 ~> { T }`). Bodies that never terminate exhaust the reference
+/// evaluator's fuel and are dropped (counted).
+pub fn t4(max: usize) -> Corpus {
+    let mut g = Grammar::new(6);
+    const T: usize = 0; // any body
+    const P: usize = 1; // program
+    const VV: usize = 2;
+    const G: usize = 3;
+    const R: usize = 4;
+    const D: usize = 5; // bodies that may stand in the default position of a conditional: not a default-less
+                        // conditional (an else-chain whose last arm is conditional is the recorded C01/C06 finding,
+                        // covered with its canonical witness by T3)
+    let val = || E::Val;
+    g.atom(VV, E::Val);
+    g.atom(VV, E::Int(1));
+    g.atom(VV, E::Bin(BinOp::Add, b(val()), b(E::Int(10))));
+    g.atom(G, E::Bin(BinOp::Ge, b(val()), b(E::Int(2))));
+    g.atom(G, E::Bin(BinOp::Lt, b(val()), b(E::Int(2))));
+    g.atom(G, E::Bin(BinOp::Eq, b(val()), b(E::Int(1))));
+    g.atom(R, E::Pre(PreOp::Reapply, b(E::Bin(BinOp::Add, b(val()), b(E::Int(1))))));
+    g.atom(R, E::Pre(PreOp::Reapply, b(E::Bin(BinOp::Add, b(val()), b(E::Int(2))))));
+    g.alias(D, VV);
+    g.alias(D, R);
+    g.alias(T, D);
+    for k in [CondKind::IfTrue, CondKind::IfFalse] {
+        g.add(T, 1, vec![G, T], Box::new(move |v| {
+            let (c, a) = take2(v);
+            E::Cond(vec![(k, c, a)], None)
+        }));
+        g.add(D, 1, vec![G, T, D], Box::new(move |mut v| {
+            let c = v.remove(0);
+            let a = v.remove(0);
+            let d = v.remove(0);
+            E::Cond(vec![(k, c, a)], Some(b(d)))
+        }));
+    }
+    g.add(D, 2, vec![G, T, G, T, D], Box::new(|mut v| {
+        let c1 = v.remove(0);
+        let a1 = v.remove(0);
+        let c2 = v.remove(0);
+        let a2 = v.remove(0);
+        let d = v.remove(0);
+        E::Cond(vec![(CondKind::IfTrue, c1, a1), (CondKind::IfFalse, c2, a2)], Some(b(d)))
+    }));
+    for o in [BinOp::And, BinOp::Or] {
+        g.add(D, 1, vec![G, T], Box::new(move |v| {
+            let (l, r) = take2(v);
+            E::Bin(o, b(l), b(r))
+        }));
+    }
+    g.add(D, 1, vec![T], Box::new(|mut v| E::Group(b(v.remove(0)))));
+    g.add(D, 1, vec![VV, T], Box::new(|v| {
+        let (l, r) = take2(v);
+        E::Bin(BinOp::Semi, b(l), b(r))
+    }));
+    g.add(D, 1, vec![VV, T], Box::new(|v| E::SeqBlank(v)));
+    g.add(P, 1, vec![T], Box::new(|mut v| E::Bin(BinOp::Apply, b(E::Nested(0, b(v.remove(0)))), b(E::Int(0)))));
+    g.add(P, 1, vec![T], Box::new(|mut v| E::Bin(BinOp::ApplyTo, b(E::Int(0)), b(E::Nested(0, b(v.remove(0)))))));
+    // the loop's result used by a pending operation of the caller
+    g.add(P, 2, vec![T], Box::new(|mut v| E::Bin(BinOp::Add, b(E::Int(100)), b(E::Group(b(E::Bin(BinOp::Apply, b(E::Nested(0, b(v.remove(0)))), b(E::Int(0)))))))));
+    Corpus::new("T4", g, P, max)
+}
+
+/// T5: calls - nested expressions applied inside nested expressions (call depth up to the size bound), with and
+/// without pending operands around the call and with work remaining after it returns.
+pub fn t5(max: usize) -> Corpus {
+    let mut g = Grammar::new(3);
+    const C: usize = 0;
+    const A: usize = 2;
+    g.atom(A, E::Int(1));
+    g.atom(A, E::Val);
+    g.atom(A, E::Unit);
+    g.alias(C, A);
+    g.add(C, 1, vec![C, C], Box::new(|v| {
+        let (body, arg) = take2(v);
+        E::Bin(BinOp::Apply, b(E::Nested(0, b(body))), b(arg))
+    }));
+    g.add(C, 1, vec![C, C], Box::new(|v| {
+        let (arg, body) = take2(v);
+        E::Bin(BinOp::ApplyTo, b(arg), b(E::Nested(0, b(body))))
+    }));
+    g.add(C, 1, vec![C], Box::new(|mut v| E::Suf(SufOp::EmptyApply, b(E::Nested(0, b(v.remove(0)))))));
+    g.add(C, 1, vec![C, C], Box::new(|v| {
+        let (l, r) = take2(v);
+        E::Bin(BinOp::Add, b(l), b(r))
+    }));
+    g.add(C, 1, vec![C, C], Box::new(|v| E::SpaceList(v)));
+    g.add(C, 1, vec![C, C, C], Box::new(|mut v| {
+        let c = v.remove(0);
+        let a = v.remove(0);
+        let d = v.remove(0);
+        E::Cond(vec![(CondKind::IfTrue, c, a)], Some(b(d)))
+    }));
+    g.add(C, 1, vec![C, C], Box::new(|v| {
+        let (l, r) = take2(v);
+        E::Bin(BinOp::Semi, b(l), b(r))
+    }));
+    Corpus::new("T5", g, C, max)
+}
+
 /// initial input values of C01
 pub fn inputs() -> Vec<(&'static str, V)> {
     vec![
@@ -282,5 +385,6 @@ pub fn inputs() -> Vec<(&'static str, V)> {
         (":a = 1", V::pair(V::sym("a"), V::Int(1))),
         ("(:a = 1, :b = 2)", V::List(vec![V::pair(V::sym("a"), V::Int(1)), V::pair(V::sym("b"), V::Int(2))])),
         ("(:a = 1, 7)", V::List(vec![V::pair(V::sym("a"), V::Int(1)), V::Int(7)])),
+        ("0", V::Int(0)),
     ]
 }
